@@ -86,6 +86,13 @@ def _closure_functions(ctx) -> list[Inst]:
                         and isinstance(n.func.value, ast.Name) and n.args:
                     wl = n.func.value.id
                     arg = n.args[0]
+                    if isinstance(arg, ast.Name):
+                        # the links may be taken into a local first: `nxt = wl.pop().sub_assets; wl.extend(nxt)`
+                        for a_ in ast.walk(lp):
+                            if isinstance(a_, ast.Assign) and len(a_.targets) == 1 and isinstance(a_.targets[0], ast.Name) \
+                                    and a_.targets[0].id == arg.id:
+                                arg = a_.value
+                                break
                     link_reads = [x for x in ast.walk(arg) if isinstance(x, ast.Attribute) and x.attr == link]
                     consumed = isinstance(lp, ast.While) and any(
                         isinstance(x, ast.Name) and x.id == wl for x in ast.walk(lp.test)) or \
